@@ -140,12 +140,15 @@ let () =
                   (match !impl_prev with
                    | Some ip when prop > 0 ->
                      incr nchecked;
+                     let fi = check_step zprop (with_ctx !model_prev ip) op !impl_class is in
+                     let fm = check_step zprop !model_prev op !cur_class !st in
+                     (* label: the model's own error code of this operation (0 = the model succeeds) *)
+                     let ec = if (fi <> [] || fm <> []) && (prop = 5 || prop = 8 || prop = 17)
+                              then ".e" ^ string_of_z (step_err !model_prev op) else "" in
                      List.iter (fun code ->
-                       Printf.printf "PROPFAIL impl %s step=%d sig=C%02d.%s op=%s\n" !hid !stepno prop (string_of_z code)
-                         (match !cur_op with Some _ -> "" | None -> "")) (check_step zprop (with_ctx !model_prev ip) op !impl_class is);
+                       Printf.printf "PROPFAIL impl %s step=%d sig=C%02d.%s%s\n" !hid !stepno prop (string_of_z code) ec) fi;
                      List.iter (fun code ->
-                       Printf.printf "PROPFAIL model %s step=%d sig=C%02d.%s\n" !hid !stepno prop (string_of_z code))
-                       (check_step zprop !model_prev op !cur_class !st)
+                       Printf.printf "PROPFAIL model %s step=%d sig=C%02d.%s%s\n" !hid !stepno prop (string_of_z code) ec) fm
                    | _ -> ());
                   impl_prev := Some is;
                   if differs || !cur_class <> !impl_class then begin
